@@ -466,7 +466,7 @@ Proof.
     + intros _. destruct (wc_end L_pct_rbrace (rest s (pos t1))) as [[w m]|] eqn:E.
       * apply wc_end_len in E. rewrite rest_len in E. simpl in E. simpl.
         unfold line_post, adv, sane; st_simpl. repeat split; lia.
-      * destruct (peek_at s (pos t1)) eqn:Ep; [apply peek_some in Ep|]; apply rspec_syn; lia.
+      * apply rspec_syn; lia.
 Qed.
 
 Definition lbc_post (t : st) (x : st * ltok) : Prop :=
@@ -511,7 +511,7 @@ Proof.
       + simpl. unfold lbc_post, adv, sane; st_simpl. repeat split; lia.
       + apply Hrec; unfold le_L; try lia.
     - destruct (str_eqb _ L_comment); apply Hrec; unfold le_L; try lia. }
-  destruct (line_comment (rest s (pos t))) as [m|] eqn:Em; [|apply rspec_syn; assumption].
+  destruct (line_comment (rest s (pos t))) as [m|] eqn:Em; [|apply rspec_syn; lia].
   apply line_comment_le in Em. rewrite rest_len in Em.
   pose proof (line_term_le (rest s (pos t + m))) as Hlt. rewrite rest_len in Hlt.
   apply Hrec; unfold le_L; st_simpl; lia.
@@ -541,7 +541,7 @@ Proof.
   pose proof (tag_name_len_le (rest s (pos t1))) as Hn. rewrite rest_len in Hn.
   destruct (negb (tag_name_len (rest s (pos t1)) =? 0)) eqn:En.
   { apply negb_true_iff, Nat.eqb_neq in En.
-    set (t2 := set_lstart (set_both t1 (pos t1 + tag_name_len (rest s (pos t1)))) (start t1)).
+    set (t2 := set_in_range (set_lstart (set_both t1 (pos t1 + tag_name_len (rest s (pos t1)))) (start t1)) false).
     assert (Hs2 : sane t2) by (subst t2; unfold sane; st_simpl; lia).
     assert (Hp2 : pos t2 = pos t1 + tag_name_len (rest s (pos t1))) by reflexivity.
     assert (Hm2 : mstart t2 = mstart t1) by reflexivity.
@@ -563,7 +563,7 @@ Proof.
     destruct (peek_is s (set_both t1 (pos t1 + m)) 10) eqn:Ep.
     - apply peek_is_lt in Ep. st_simpl. apply Hrec; unfold sane; st_simpl; try lia; congruence.
     - apply Hrec; unfold sane; st_simpl; try lia; congruence. }
-  destruct (peek_at s (pos t1)) eqn:Ep; [apply peek_some in Ep|]; apply rspec_syn; lia.
+  apply rspec_syn; lia.
 Qed.
 
 (** * Block comments *)
@@ -575,7 +575,7 @@ Proof.
   induction f as [|f IH]; intros t w0 cd rd (H1 & H2); [simpl; lia|].
   cbn [block_comment].
   destruct (find_first chunk_tail (rest s (pos t))) as [[k [[ce w1] m]]|] eqn:E;
-    [|apply rspec_syn; assumption].
+    [|apply rspec_syn; lia].
   apply find_first_spec in E as (Hk & Hc). apply chunk_tail_len in Hc.
   rewrite skipn_length, rest_len in Hc. rewrite rest_len in Hk.
   assert (Hrec : forall cd' rd',
@@ -626,18 +626,18 @@ Proof.
     + intros [t2 tok] (C1 & C2 & C3 & C4 & C5). st_simpl. apply Hrec; try assumption; lia.
   - (* output *)
     eapply rspec_bind.
-    + eapply rspec_mono; [apply (expression_until_spec f L_rbrace2 (set_both (set_mstart t (start t)) (pos t + n)));
+    + eapply rspec_mono; [apply (expression_until_spec f L_rbrace2 (set_in_range (set_both (set_mstart t (start t)) (pos t + n)) false));
                           [unfold sane; st_simpl; lia|simpl; lia]|st_simpl; lia|intros x H; exact H].
     + intros [[t2 w1] expr] (C1 & C2 & C3 & C4). st_simpl. simpl in C1.
       apply Hrec; unfold sane; st_simpl; simpl; lia.
   - (* tag *)
     destruct (str_eqb _ L_liquid).
     + eapply rspec_bind.
-      * eapply rspec_mono; [apply (liquid_tag_spec f (set_both (set_mstart t (start t)) (pos t + noff + nlen)));
+      * eapply rspec_mono; [apply (liquid_tag_spec f (set_in_range (set_both (set_mstart t (start t)) (pos t + noff + nlen)) false));
                             unfold sane; st_simpl; lia|st_simpl; lia|intros x H; exact H].
       * intros [t2 tok] (C1 & C2 & C3 & C4 & C5). st_simpl. apply Hrec; try assumption; lia.
     + eapply rspec_bind.
-      * eapply rspec_mono; [apply (expression_until_spec f L_pct_rbrace (set_both (set_mstart t (start t)) (pos t + noff + nlen)));
+      * eapply rspec_mono; [apply (expression_until_spec f L_pct_rbrace (set_in_range (set_both (set_mstart t (start t)) (pos t + noff + nlen)) false));
                             [unfold sane; st_simpl; lia|simpl; lia]|st_simpl; lia|intros x H; exact H].
       * intros [[t2 w1] expr] (C1 & C2 & C3 & C4). st_simpl. simpl in C1.
         apply Hrec; unfold sane; st_simpl; simpl; lia.
